@@ -53,7 +53,8 @@ def plan(tier, seed):
 
 def worker(spec):
     from vlib.worker import Result
-    from vlib import ctxwork, drive, ctxmon
+    from vlib import ctxwork, drive, ctxmon, shadow
+    import os
     import stackscope
     from stackscope import lowlevel as ll
 
@@ -162,8 +163,37 @@ def worker(spec):
         for r in range(spec.get("runs", 3)):
             state["rseed"] = r
             state["nprobe"] = 0
-            run = drive.drive_running(code, kind, spec.get("seed", 0) * 131 + r, probe)
+            run = shadow.Run(spec.get("seed", 0) * 131 + r, "running")
+            run.keep_traceback = True
+            run = drive.drive_running(code, kind, spec.get("seed", 0) * 131 + r, probe, run=run)
             res.count("end_" + (run.end[0] if run.end else "none"))
+            tb = getattr(run, "tb", None)
+            run.tb = None
+            if tb is not None and state.get("postmortems", 0) < 150:
+                # history for the next runs of the same code: a post-mortem look at the *finished* frames the
+                # exception left (a debugger, a crash reporter).  What it returns is not judged here - dead frames
+                # are outside the property - but whatever it leaves behind must not change what later, live frames
+                # of the same functions report.
+                state["postmortems"] = state.get("postmortems", 0) + 1
+                devnull = open(os.devnull, "w")
+                saved = sys.stderr
+                sys.stderr = devnull
+                try:
+                    while tb is not None:
+                        if drive.is_generated(tb.tb_frame):
+                            res.count("postmortem_looks_at_finished_frames")
+                            with warnings.catch_warnings():
+                                warnings.simplefilter("ignore")
+                                try:
+                                    ll.contexts_active_in_frame(tb.tb_frame)
+                                    stackscope.extract_until(tb.tb_frame, limit=1)
+                                except Exception:
+                                    res.count("postmortem_looks_that_raised")
+                        tb = tb.tb_next
+                finally:
+                    sys.stderr = saved
+                    devnull.close()
+            tb = None
         if nprog <= 2:
             res.sample({"label": label, "source": src, "runs": spec.get("runs", 3)})
     return res
